@@ -138,6 +138,9 @@ def specs(draw, alphabet):
     for i in range(draw(st.integers(1, 4))):
         wl.append(lastext.item("W%d" % i + draw(st.text(alphabet + S.LETTERS, max_size=3)), draw(st.text(alphabet + "m/", max_size=3)),
                                draw(phrase), draw(phrase)))
+    if alphabet == WIDE and draw(st.integers(0, 3)) == 0:
+        # digits outside ASCII are header TEXT like any other character: they are preserved, not turned into numbers
+        wl.append(lastext.item("RUNNO", "", draw(st.sampled_from(["\uff11\uff12\uff13", "\u0663\u0664", "\u0967\u0968", "\uff17"])), draw(phrase)))
     secs.append(lastext.section("W", "~Well", wl))
     nc = draw(st.integers(1, 3))
     cl = [lastext.item("DEPT", "M", "", draw(phrase))] + [
